@@ -332,6 +332,8 @@ class JointNormalDistribution(Distribution):
     @classmethod
     def create(cls, names: Sequence[str], level: str, mean, variance):
         names = tuple(names)
+        if len(set(names)) != len(names):
+            raise ValueError('Names of random variables in a joint distribution must be unique')
         level = level.upper()
         mean = Matrix(mean)
         variance = Matrix(variance)
